@@ -31,19 +31,19 @@ type unit struct {
 }
 
 type tr struct {
-	pkg        *packages.Package
-	locks      map[string]int
-	units      []*unit
-	curName    string
-	nLit       int
-	inLit      int            // >0 while translating an inlined closure: return => cont
-	calls      map[string]int // effect/guard-relevant callee -> id
-	effects    bool
-	lastAssign map[string]string
-	closures   []string // effects mode: names of closure units passed as call arguments
-	inGo       bool
-	fnLockSites []lockSite // Lock/RLock call sites of the current unit
-	assumeHeld  string     // lock key the current unit is documented to be called with
+	pkg         *packages.Package
+	locks       map[string]int
+	units       []*unit
+	curName     string
+	nLit        int
+	inLit       int            // >0 while translating an inlined closure: return => cont
+	calls       map[string]int // effect/guard-relevant callee -> id
+	effects     bool
+	lastAssign  map[string]string
+	closures    []string // effects mode: names of closure units passed as call arguments
+	inGo        bool
+	fnLockSites []lockSite                 // Lock/RLock call sites of the current unit
+	assumeHeld  string                     // lock key the current unit is documented to be called with
 	acqAll      map[string]map[string]bool // lock mode: function -> mutexes it may take, directly or through static callees
 	fnID        map[string]int             // lock mode: id of every function with a non-empty acqAll
 }
@@ -161,23 +161,23 @@ type lockSite struct {
 // (lock skeleton: a `need` is emitted in front of the access; the verified checker then rejects any path
 // that reaches it without the lock)
 var guardedFields = map[string]string{
-	"github.com/pion/turn/v5.Client.relayedConn":                            "mutex",
-	"github.com/pion/turn/v5.Client.tcpAllocation":                          "mutex",
+	"github.com/pion/turn/v5.Client.relayedConn":                             "mutex",
+	"github.com/pion/turn/v5.Client.tcpAllocation":                           "mutex",
 	"github.com/pion/turn/v5/internal/allocation.Allocation.permissions":     "permissionsLock",
 	"github.com/pion/turn/v5/internal/allocation.Allocation.channelBindings": "channelBindingsLock",
 	"github.com/pion/turn/v5/internal/allocation.Manager.allocations":        "lock",
 	"github.com/pion/turn/v5/internal/allocation.Manager.reservations":       "lock",
 	// "Guarded by AllocationManager lock": a mutex of another struct is named by its full key
 	"github.com/pion/turn/v5/internal/allocation.Allocation.tcpConnections": "github.com/pion/turn/v5/internal/allocation.Manager.lock",
-	"github.com/pion/turn/v5/internal/client.TransactionMap.trMap":           "mutex",
-	"github.com/pion/turn/v5/internal/client.binding._refreshedAt":           "mutex",
-	"github.com/pion/turn/v5/internal/client.bindingManager.chanMap":         "mutex",
-	"github.com/pion/turn/v5/internal/client.bindingManager.addrMap":         "mutex",
-	"github.com/pion/turn/v5/internal/client.bindingManager.next":            "mutex",
-	"github.com/pion/turn/v5/internal/client.allocation._nonce":              "mutex",
-	"github.com/pion/turn/v5/internal/client.allocation._lifetime":           "mutex",
-	"github.com/pion/turn/v5/internal/client.PeriodicTimer.stopFunc":         "mutex",
-	"github.com/pion/turn/v5/internal/client.permissionMap.permMap":          "mutex",
+	"github.com/pion/turn/v5/internal/client.TransactionMap.trMap":          "mutex",
+	"github.com/pion/turn/v5/internal/client.binding._refreshedAt":          "mutex",
+	"github.com/pion/turn/v5/internal/client.bindingManager.chanMap":        "mutex",
+	"github.com/pion/turn/v5/internal/client.bindingManager.addrMap":        "mutex",
+	"github.com/pion/turn/v5/internal/client.bindingManager.next":           "mutex",
+	"github.com/pion/turn/v5/internal/client.allocation._nonce":             "mutex",
+	"github.com/pion/turn/v5/internal/client.allocation._lifetime":          "mutex",
+	"github.com/pion/turn/v5/internal/client.PeriodicTimer.stopFunc":        "mutex",
+	"github.com/pion/turn/v5/internal/client.permissionMap.permMap":         "mutex",
 }
 
 // look-up / removal in the client's transaction table is serialised by Client.mutexTrMap (Insert is not:
@@ -863,81 +863,103 @@ func main() {
 		}
 	}()
 	pkgs := load(*repo)
-	// lock skeletons
-	tl := translate(pkgs, false)
-	emitUnits(filepath.Join(*out, "Locks.lean"), "Locks", tl, func(u *unit) bool {
-		return strings.Contains(u.body, ".acq") || strings.Contains(u.body, ".rel") || strings.Contains(u.body, ".deferRel") || strings.Contains(u.body, ".need")
-	}, func(w *strings.Builder) {
-		// mutex of every lock id (the write and the read lock of one mutex are the same mutex)
-		mutexIdx := map[string]int{}
-		var keys []kv
-		for k, v := range tl.locks {
-			keys = append(keys, kv{k, v})
-		}
-		sort.Slice(keys, func(i, j int) bool { return keys[i].v < keys[j].v })
-		var mo []string
-		for _, l := range keys {
-			base := strings.TrimSuffix(l.k, "#R")
-			if _, ok := mutexIdx[base]; !ok {
-				mutexIdx[base] = len(mutexIdx)
+	// Every generated file is produced on its own: a construct the translator does not support in one part (say, the
+	// port expression) must not take the obligations of the other parts down with it.  A failed part is replaced by a
+	// stub without the definitions, so exactly the theorems that depend on it stop checking.
+	section := func(file, ns string, f func()) {
+		defer func() {
+			if r := recover(); r != nil {
+				fmt.Fprintf(os.Stderr, "xlate: %s not generated: unsupported construct: %v\n", file, r)
+				fmt.Printf("xlate: %s FAILED: %v\n", file, r)
+				stub := fmt.Sprintf("-- GENERATED by /verif/xlate from /repo's working tree. Do not edit.\n-- TRANSLATION FAILED: %s\nnamespace Gen.%s\ndef translationFailed : String := %q\nend Gen.%s\n",
+					strings.ReplaceAll(fmt.Sprint(r), "\n", " "), ns, fmt.Sprint(r), ns)
+				_ = os.WriteFile(filepath.Join(*out, file), []byte(stub), 0o644)
 			}
-			mo = append(mo, fmt.Sprintf("(%d, %d)", l.v, mutexIdx[base]))
-		}
-		fmt.Fprintf(w, "def mutexOf : List (Nat × Nat) := [%s]\n", strings.Join(mo, ", "))
-		// which mutexes a call to function id may take (transitively, statically resolved callees only)
-		var names []string
-		for f := range tl.fnID {
-			names = append(names, f)
-		}
-		sort.Strings(names)
-		var ac []string
-		for _, f := range names {
-			var ms []int
-			for m := range tl.acqAll[f] {
-				if _, ok := mutexIdx[m]; !ok {
-					mutexIdx[m] = len(mutexIdx)
+		}()
+		f()
+	}
+	var tl, te *tr
+	section("Locks.lean", "Locks", func() {
+		// lock skeletons
+		tl = translate(pkgs, false)
+		emitUnits(filepath.Join(*out, "Locks.lean"), "Locks", tl, func(u *unit) bool {
+			return strings.Contains(u.body, ".acq") || strings.Contains(u.body, ".rel") || strings.Contains(u.body, ".deferRel") || strings.Contains(u.body, ".need")
+		}, func(w *strings.Builder) {
+			// mutex of every lock id (the write and the read lock of one mutex are the same mutex)
+			mutexIdx := map[string]int{}
+			var keys []kv
+			for k, v := range tl.locks {
+				keys = append(keys, kv{k, v})
+			}
+			sort.Slice(keys, func(i, j int) bool { return keys[i].v < keys[j].v })
+			var mo []string
+			for _, l := range keys {
+				base := strings.TrimSuffix(l.k, "#R")
+				if _, ok := mutexIdx[base]; !ok {
+					mutexIdx[base] = len(mutexIdx)
 				}
-				ms = append(ms, mutexIdx[m])
+				mo = append(mo, fmt.Sprintf("(%d, %d)", l.v, mutexIdx[base]))
 			}
-			sort.Ints(ms)
-			var ss []string
-			for _, m := range ms {
-				ss = append(ss, fmt.Sprint(m))
+			fmt.Fprintf(w, "def mutexOf : List (Nat × Nat) := [%s]\n", strings.Join(mo, ", "))
+			// which mutexes a call to function id may take (transitively, statically resolved callees only)
+			var names []string
+			for f := range tl.fnID {
+				names = append(names, f)
 			}
-			fmt.Fprintf(w, "-- fn %d = %s\n", tl.fnID[f], f)
-			ac = append(ac, fmt.Sprintf("(%d, [%s])", tl.fnID[f], strings.Join(ss, ", ")))
-		}
-		fmt.Fprintf(w, "def acquires : List (Nat × List Nat) := [%s]\n", strings.Join(ac, ",\n  "))
+			sort.Strings(names)
+			var ac []string
+			for _, f := range names {
+				var ms []int
+				for m := range tl.acqAll[f] {
+					if _, ok := mutexIdx[m]; !ok {
+						mutexIdx[m] = len(mutexIdx)
+					}
+					ms = append(ms, mutexIdx[m])
+				}
+				sort.Ints(ms)
+				var ss []string
+				for _, m := range ms {
+					ss = append(ss, fmt.Sprint(m))
+				}
+				fmt.Fprintf(w, "-- fn %d = %s\n", tl.fnID[f], f)
+				ac = append(ac, fmt.Sprintf("(%d, [%s])", tl.fnID[f], strings.Join(ss, ", ")))
+			}
+			fmt.Fprintf(w, "def acquires : List (Nat × List Nat) := [%s]\n", strings.Join(ac, ",\n  "))
+		})
 	})
-	// effect skeletons of the request handlers
-	te := translate(pkgs, true)
-	emitUnits(filepath.Join(*out, "Eff.lean"), "Eff", te, func(u *unit) bool {
-		return strings.HasPrefix(u.name, "server.handle")
-	}, func(w *strings.Builder) {
-		var names []string
-		for n := range interesting {
-			names = append(names, n)
-		}
-		sort.Strings(names)
-		for i, n := range names {
-			fmt.Fprintf(w, "def id_%s : Nat := %d\n", n, i)
-		}
-		for i, c := range te.closures {
-			fmt.Fprintf(w, "-- closure call %d = %s\n", 900+i, c)
-		}
-		fmt.Fprintf(w, "def closures : List (Nat × String) := [")
-		for i, c := range te.closures {
-			if i > 0 {
-				fmt.Fprintf(w, ", ")
+	section("Eff.lean", "Eff", func() {
+		// effect skeletons of the request handlers
+		te = translate(pkgs, true)
+		emitUnits(filepath.Join(*out, "Eff.lean"), "Eff", te, func(u *unit) bool {
+			return strings.HasPrefix(u.name, "server.handle")
+		}, func(w *strings.Builder) {
+			var names []string
+			for n := range interesting {
+				names = append(names, n)
 			}
-			fmt.Fprintf(w, "(%d, %q)", 900+i, c)
-		}
-		fmt.Fprintf(w, "]\n")
+			sort.Strings(names)
+			for i, n := range names {
+				fmt.Fprintf(w, "def id_%s : Nat := %d\n", n, i)
+			}
+			for i, c := range te.closures {
+				fmt.Fprintf(w, "-- closure call %d = %s\n", 900+i, c)
+			}
+			fmt.Fprintf(w, "def closures : List (Nat × String) := [")
+			for i, c := range te.closures {
+				if i > 0 {
+					fmt.Fprintf(w, ", ")
+				}
+				fmt.Fprintf(w, "(%d, %q)", 900+i, c)
+			}
+			fmt.Fprintf(w, "]\n")
+		})
 	})
-	emitConsts(filepath.Join(*out, "Consts.lean"), pkgs)
-	emitFacts(filepath.Join(*out, "Facts.lean"), pkgs)
-	emitExprs(filepath.Join(*out, "Expr.lean"), pkgs)
-	fmt.Printf("xlate: %d lock units, %d locks, %d handler units\n", countUnits(tl, false), len(tl.locks), countUnits(te, true))
+	section("Consts.lean", "Consts", func() { emitConsts(filepath.Join(*out, "Consts.lean"), pkgs) })
+	section("Facts.lean", "Facts", func() { emitFacts(filepath.Join(*out, "Facts.lean"), pkgs) })
+	section("Expr.lean", "Expr", func() { emitExprs(filepath.Join(*out, "Expr.lean"), pkgs) })
+	if tl != nil && te != nil {
+		fmt.Printf("xlate: %d lock units, %d locks, %d handler units\n", countUnits(tl, false), len(tl.locks), countUnits(te, true))
+	}
 }
 
 // facts: designated ordering facts read off the AST (true/false), each the hypothesis of a small
